@@ -98,7 +98,7 @@ theorem readFrom_sig (s : State) : Sig (readFrom s).1 = Sig s := by
 /-- `WriteTo` either leaves the numbering alone or — first write to a new peer — appends the next number -/
 theorem writeTo_sig (s : State) (peer : Addr) (data : Bytes) (prx brx : List Rx) (hnd : (s.binds.map (·.addr)).Nodup) :
     Sig (writeTo s peer data prx brx).1 = Sig s ∨
-    (peer ∉ s.binds.map (·.addr) ∧
+    (peer ∉ s.binds.map (·.addr) ∧ s.binds.length < chanCount ∧
       Sig (writeTo s peer data prx brx).1 = (s.binds.map (·.num) ++ [s.next], s.binds.map (·.addr) ++ [peer], nextNum s.next)) := by
   unfold writeTo
   split
@@ -114,13 +114,16 @@ theorem writeTo_sig (s : State) (peer : Addr) (data : Bytes) (prx brx : List Rx)
       have hnd1 : (s1.binds.map (·.addr)).Nodup := by rw [hb1]; exact hnd
       cases hfb : findBind s1 peer with
       | some b =>
-        simp only
+        simp only [bindFor, hfb]
         left
         split
         · exact hsig
         · rw [maybeBind_sig s1 b brx (findBind_mem hfb).1 hnd1]; exact hsig
       | none =>
-        simp only
+        simp only [bindFor, hfb]
+        by_cases hfull : s1.binds.length < chanCount
+        case neg => simp only [hfull, if_false]; exact Or.inl hsig
+        simp only [hfull, if_true]
         right
         have hnot : peer ∉ s.binds.map (·.addr) := by
           intro hm
@@ -130,7 +133,7 @@ theorem writeTo_sig (s : State) (peer : Addr) (data : Bytes) (prx brx : List Rx)
           rw [hb1] at hfb
           have := List.find?_eq_none.mp hfb x hx
           simp [hxa] at this
-        refine ⟨hnot, ?_⟩
+        refine ⟨hnot, by rw [← hb1]; exact hfull, ?_⟩
         have hnd2 : ((s1.binds ++ [(⟨peer, s1.next, .idle, s1.now, false⟩ : Bind)]).map (·.addr)).Nodup := by
           rw [List.map_append, hb1]
           simp only [List.map_cons, List.map_nil]
@@ -144,8 +147,8 @@ theorem writeTo_sig (s : State) (peer : Addr) (data : Bytes) (prx brx : List Rx)
         · rw [maybeBind_sig _ _ brx (by simp) hnd2]; exact hsig2
     · left; rfl
 
-/-- the numbering invariant is preserved by every operation as long as the table holds at most 16384 peers -/
-theorem step_numInv (s : State) (op : Op) (h : NumInv s) (hl : (step s op).1.binds.length ≤ 16384) : NumInv (step s op).1 := by
+/-- the numbering invariant is preserved by every operation (a new binding is only made while numbers are left) -/
+theorem step_numInv (s : State) (op : Op) (h : NumInv s) : NumInv (step s op).1 := by
   have keep : ∀ s', Sig s' = Sig s → NumInv s' := by
     intro s' hs
     have h1 : s'.binds.map (·.num) = s.binds.map (·.num) := congrArg (·.1) hs
@@ -156,14 +159,14 @@ theorem step_numInv (s : State) (op : Op) (h : NumInv s) (hl : (step s op).1.bin
     exact ⟨by rw [h1, hlen]; exact h.nums, by rw [hlen, h3]; exact h.next, by rw [h2]; exact h.addrs⟩
   cases op with
   | write p d prx brx =>
-    rcases writeTo_sig s p d prx brx h.addrs with hs | ⟨hnot, hs⟩
+    rcases writeTo_sig s p d prx brx h.addrs with hs | ⟨hnot, hlt, hs⟩
     · exact keep _ hs
     · have h1 : (step s (.write p d prx brx)).1.binds.map (·.num) = s.binds.map (·.num) ++ [s.next] := congrArg (·.1) hs
       have h2 : (step s (.write p d prx brx)).1.binds.map (·.addr) = s.binds.map (·.addr) ++ [p] := congrArg (·.2.1) hs
       have h3 : (step s (.write p d prx brx)).1.next = nextNum s.next := congrArg (·.2.2) hs
       have hlen : (step s (.write p d prx brx)).1.binds.length = s.binds.length + 1 := by
         have := congrArg List.length h1; simpa using this
-      have hlt : s.binds.length < 16384 := by omega
+      have hlt : s.binds.length < 16384 := hlt
       have hnext := h.next hlt
       refine ⟨?_, ?_, ?_⟩
       · rw [h1, hlen, List.range_succ, List.map_append, h.nums, hnext]; rfl
@@ -244,12 +247,15 @@ theorem step_len_mono (s : State) (op : Op) : s.binds.length ≤ (step s op).1.b
         have hb1 : s1.binds = s.binds := by rw [← hg]; split <;> rfl
         cases hfb : findBind s1 p with
         | some b =>
-          simp only
+          simp only [bindFor, hfb]
           split
           · rw [hb1]; exact Nat.le_refl _
           · exact keep _ (by rw [(maybeBind_binds_addrs s1 b brx).1, hb1])
         | none =>
-          simp only
+          simp only [bindFor, hfb]
+          by_cases hfull : s1.binds.length < chanCount
+          case neg => simp only [hfull, if_false]; rw [hb1]; exact Nat.le_refl _
+          simp only [hfull, if_true]
           split
           · simp [hb1]
           · have hl : (maybeBind { s1 with binds := s1.binds ++ [⟨p, s1.next, .idle, s1.now, false⟩], next := nextNum s1.next }
@@ -277,26 +283,56 @@ theorem run_len_mono : ∀ (ops : List Op) (s : State), s.binds.length ≤ (run 
   | nil => intro s; exact Nat.le_refl _
   | cons o os ih => intro s; simp only [run]; exact Nat.le_trans (step_len_mono s o) (ih _)
 
-theorem run_numInv : ∀ (ops : List Op) (s : State), NumInv s → (run s ops).1.binds.length ≤ 16384 → NumInv (run s ops).1 := by
+/-- the table never holds more bindings than there are channel numbers -/
+theorem step_len_le (s : State) (op : Op) (hnd : (s.binds.map (·.addr)).Nodup) (hl : s.binds.length ≤ chanCount) :
+    (step s op).1.binds.length ≤ chanCount := by
+  have keep : ∀ s' : State, Sig s' = Sig s → s'.binds.length ≤ chanCount := by
+    intro s' hs
+    have h1 : s'.binds.map (·.num) = s.binds.map (·.num) := congrArg (·.1) hs
+    have := congrArg List.length h1
+    simp at this; omega
+  cases op with
+  | write p d prx brx =>
+    rcases writeTo_sig s p d prx brx hnd with hs | ⟨_, hlt, hs⟩
+    · exact keep _ hs
+    · have h1 : (step s (.write p d prx brx)).1.binds.map (·.num) = s.binds.map (·.num) ++ [s.next] := congrArg (·.1) hs
+      have := congrArg List.length h1
+      simp at this; omega
+  | tick rx =>
+    simp only [step]
+    split
+    · exact hl
+    · exact keep _ (checkBindings_sig s rx hnd)
+  | inbound m => exact keep _ (handleInbound_sig s m)
+  | read => exact keep _ (readFrom_sig s)
+  | adv dt => exact keep _ (advTicks_sig _ s _ hnd)
+  | close =>
+    simp only [step]
+    split
+    · exact hl
+    · exact keep _ rfl
+
+theorem run_numInv : ∀ (ops : List Op) (s : State), NumInv s → s.binds.length ≤ chanCount →
+    NumInv (run s ops).1 ∧ (run s ops).1.binds.length ≤ chanCount := by
   intro ops
   induction ops with
-  | nil => intro s h _; exact h
+  | nil => intro s h hl; exact ⟨h, hl⟩
   | cons o os ih =>
     intro s h hl
-    simp only [run] at hl ⊢
-    have hmid : (step s o).1.binds.length ≤ 16384 := Nat.le_trans (run_len_mono os _) hl
-    exact ih _ (step_numInv s o h hmid) hl
+    simp only [run]
+    exact ih _ (step_numInv s o h) (step_len_le s o h.addrs hl)
 
 /-- **over ANY history** of writes (with any server reactions), inbound messages, reads, timer ticks, time
-    steps and Close: as long as the client has written to at most 16384 distinct peers, the channel numbers
-    of its bindings are pairwise distinct and inside 0x4000–0x7FFF, the k-th peer written to has number
-    0x4000 + k for good, and no peer has two bindings -/
-theorem channel_numbers_any_history (ops : List Op) (hl : (run init ops).1.binds.length ≤ 16384) :
+    steps and Close, to any number of peers: the channel numbers of the client's bindings are pairwise distinct and
+    inside 0x4000–0x7FFF, the k-th peer that got a binding has number 0x4000 + k for good, no peer has two bindings,
+    and there are never more bindings than channel numbers (a peer beyond the 16384th is served with Send
+    indications: finding F28 was that it got a number still held by another peer) -/
+theorem channel_numbers_any_history (ops : List Op) :
     ((run init ops).1.binds.map (·.num)).Nodup ∧ (∀ b ∈ (run init ops).1.binds, chanValid b.num = true) ∧
     (run init ops).1.binds.map (·.num) = (List.range (run init ops).1.binds.length).map (minChan + ·) ∧
-    ((run init ops).1.binds.map (·.addr)).Nodup := by
-  have h := run_numInv ops init numInv_init hl
+    ((run init ops).1.binds.map (·.addr)).Nodup ∧ (run init ops).1.binds.length ≤ chanCount := by
+  obtain ⟨h, hl⟩ := run_numInv ops init numInv_init (by simp [init, chanCount])
   obtain ⟨h1, h2⟩ := nums_distinct_in_range _ h hl
-  exact ⟨h1, h2, h.nums, h.addrs⟩
+  exact ⟨h1, h2, h.nums, h.addrs, hl⟩
 
 end Turn.C13
